@@ -11,7 +11,8 @@ func init() {
 	register("C10", func(c *Ctx) {
 		p := c.P
 		c.Explain = "Soundness structure of Merkle proof verification decided on CFG/SSA: (auth-before-traverse) in trie.VerifyProof and trie2.VerifyProof every success return and every use of a proof node (child selection, edge-path comparison, value return) happens only after the node's recomputed hash was compared with the expected hash and matched, and a missing node is an error; (range-fork) in trie2's range verifier the side that is cut below a fork edge is the one opposite to the boundary proof that points into the edge (mirror-image branches agree); " +
-			"(rpc-one-view) storage-proof RPC handlers (v8/v9/v10) take both tries, all proofs and the returned roots from the one HeadState() value and reject unsupported blocks before generating proofs. Not decided: completeness (honest proofs verify), absence-proof divergence cases, hash correctness — these are value-level."
+			"(rpc-one-view) storage-proof RPC handlers (v8/v9/v10) take both tries, all proofs and the returned roots from the one HeadState() value and reject unsupported blocks before generating proofs. (hash-family) outside the constructors no function of the trie packages names a hash family: proof nodes are hashed with the function the trie was built with. Not decided: completeness (honest proofs verify), absence-proof divergence cases, hash correctness — these are value-level."
+		c10HashFamily(c)
 		for _, fr := range []fref{{"core/trie", "", "VerifyProof"}, {"core/trie2", "", "VerifyProof"}} {
 			f := p.Func(fr.pkg, fr.recv, fr.name)
 			if f == nil {
@@ -212,4 +213,78 @@ func init() {
 			c.check(bad == "", "rpc-one-view", v+".StorageProof", p.Pos(fnPos(f)), "tries, proofs and roots from the one HeadState() view, after isBlockSupported", bad)
 		}
 	})
+}
+
+// hashConstOK: functions that may name a hash family directly (role → family is fixed there); everything else in the
+// trie packages must use the hash function the trie was constructed with.
+var hashConstOK = map[string]string{
+	"core/trie.NewTriePedersen":             "constructor: fixes the family of a role",
+	"core/trie.NewTriePoseidon":             "constructor",
+	"core/trie.NewTrieReaderPedersen":       "constructor",
+	"core/trie.NewTrieReaderPoseidon":       "constructor",
+	"core/trie.newTrieReader":               "constructor default",
+	"core/trie.newTrie":                     "constructor default",
+	"(*core/trie.Binary).String":            "debug rendering only",
+	"(*core/trie.Edge).String":              "debug rendering only",
+	"core/trie2.verifyRangeWithProof":       "range proofs are defined for Pedersen tries only; reviewed",
+	"core/trie2.VerifyRangeProof":           "range proofs are defined for Pedersen tries only (contract / storage tries); reviewed",
+	"core/trie2.NewContractTrie":            "constructor",
+	"core/trie2.NewContractStorageTrie":     "constructor",
+	"core/trie2.NewClassTrie":               "constructor",
+	"core/trie2.NewEmptyPedersen":           "constructor",
+	"core/trie2.NewEmptyPoseidon":           "constructor",
+	"(*core/trie2/triedb/pathdb.Database).getStateRoot": "path-scheme database, not reachable with the production configuration (nil trie-db config, see C05/helper-contract); hashes the class root with Pedersen — noted as observation O1 in DESIGN.md",
+}
+
+// c10HashFamily: proof nodes are hashed with the hash function of the trie they belong to.
+func c10HashFamily(c *Ctx) {
+	p := c.P
+	n := 0
+	for _, fn := range p.sortedFuncs() {
+		pr := pkgRelOf(fn)
+		if !(pr == "core/trie" || strings.HasPrefix(pr, "core/trie2")) || fn.Origin() != nil || strings.HasSuffix(p.Pos(fnPos(fn)), "_test.go") {
+			continue
+		}
+		used := map[string]bool{}
+		allInstrs(fn, func(in ssa.Instruction) {
+			for _, op := range in.Operands(nil) {
+				if op == nil || *op == nil {
+					continue
+				}
+				if f, ok := (*op).(*ssa.Function); ok && f.Pkg != nil && strings.HasSuffix(f.Pkg.Pkg.Path(), "core/crypto") && (f.Name() == "Pedersen" || f.Name() == "Poseidon") {
+					// as a value (argument / stored), not as the callee of a direct call
+					if call, isCall := in.(ssa.CallInstruction); isCall && call.Common().Value == ssa.Value(f) {
+						continue
+					}
+					used[f.Name()] = true
+				}
+			}
+		})
+		if len(used) == 0 {
+			continue
+		}
+		n++
+		key := qname(rootOf(fn))
+		roleFixing := true
+		for fam := range used {
+			if !strings.Contains(rootOf(fn).Name(), fam) {
+				roleFixing = false
+			}
+		}
+		if nm := rootOf(fn).Name(); strings.HasPrefix(nm, "New") || strings.HasPrefix(nm, "new") {
+			roleFixing = true
+		}
+		if roleFixing {
+			c.ok("hash-family", key, p.Pos(fnPos(fn)), "role-fixing function (constructor, or named after the family it uses)")
+			continue
+		}
+		if why, ok := hashConstOK[key]; ok {
+			c.ok("hash-family", key, p.Pos(fnPos(fn)), "may name the family: "+why)
+			continue
+		}
+		c.viol("hash-family", key, p.Pos(fnPos(fn)), "names the hash family "+strings.Join(keysOf(used), "/")+" directly instead of using the trie's own hash function: proof nodes of a trie of the other family (e.g. the Poseidon class trie) get wrong child hashes and honest proofs stop verifying")
+	}
+	if n < 8 {
+		c.und("hash-family", "trie packages", "", fmt.Sprintf("only %d functions naming a hash family found", n))
+	}
 }
